@@ -106,6 +106,22 @@ func c18Eval(t *testing.T, run *h.Run, c c18Case, withPods bool) {
 		objs = append(objs, eds, rs)
 		st := w.NewState(0, objs...)
 		st.Now = 2 * time.Hour
+		if withPods && len(c.Nodes) > 0 {
+			// the replica-set controller may run BEFORE the setting controller has looked at a new setting: a setting that was
+			// never declared valid must not influence pods
+			l0 := w.NewLive(st, w.Config{})
+			l0.API.ResetLog()
+			l0.ReconcileERS("ns", rs.Name)
+			run.Count("ers_reconciles", 1)
+			for _, call := range l0.API.Log {
+				if call.Kind == "Pod" && call.Verb == "create" {
+					p := call.Obj.(*corev1.Pod)
+					if p.Labels[v1.ExtendedDaemonSetSettingNameLabelKey] != "" || !apiequality.Semantic.DeepEqual(p.Spec.Containers[0].Resources, corev1.ResourceRequirements{}) {
+						viol("C18/pods: a pod was influenced by a setting that has not been declared valid (not reconciled yet)", p.Labels[v1.ExtendedDaemonSetSettingNameLabelKey])
+					}
+				}
+			}
+		}
 		l := w.NewLive(st, w.Config{})
 		for _, i := range c.Order {
 			rr := l.ReconcileSetting("ns", fmt.Sprintf("set%d", i+1))
